@@ -291,5 +291,8 @@ def run(ctx):
     from .c17 import r17b
     r05c(ctx)     # a candidate / sub-edit taken from a one-shot iterator and then dropped makes the interval unsound
     r17b(ctx)     # the search (a Bounded object) reports no progress only when exhausted
+    from .c03 import r03g, r03d
+    r03g(ctx)     # size-derived caps of compound edits are sound only if sizes bound the computed leaf costs
+    r03d(ctx)     # a list's cost is final only if every accumulated cell was exhausted first
     ctx.assume("that an interval never widens, always contains the final cost, and that refinement is finite are "
                "statements about runtime numbers and are NOT decided; only the structural necessary conditions are")
